@@ -1008,8 +1008,19 @@ def check_mask_regroup(prog, rep, f):
                 applied.add(last.id)
     counted = set()
     for n in walk_no_nested(f.node):
-        if isinstance(n, ast.Call) and isinstance(n.func, ast.Attribute) and n.func.attr == "flatnonzero" and n.args and isinstance(n.args[0], ast.Name):
-            counted.add(n.args[0].id)
+        if isinstance(n, ast.Call) and isinstance(n.func, ast.Attribute) and n.func.attr == "flatnonzero" and n.args:
+            counted.add(dump(n.args[0]))
+    if len(applied) == 1 and counted and counted != applied:
+        # the recount may name the mask by the expression the applied local was bound from: the same only if that local is never rebound
+        a_ = sorted(applied)[0]
+        adefs = [dump(n.value) for n in walk_no_nested(f.node) if isinstance(n, ast.Assign) and any(isinstance(t, ast.Name) and t.id == a_ for t in n.targets)]
+        if len(counted) == 1 and adefs and all(d == sorted(counted)[0] for d in adefs):
+            counted = set(applied)
+        elif not (len(counted) == 1 and any(sorted(counted)[0] in d or d == sorted(counted)[0] for d in adefs)) and not all(c.isidentifier() for c in counted):
+            rep.unrec("R7-ctor", construct, "group recount from %s: relation to the applied mask %s not traced" % (sorted(counted), a_))
+            counted = set()
+    if len(applied) == 1 and not counted and rel:
+        rep.unrec("R7-ctor", construct + "#recount-mask", "retained-index vector of the group recount not found (no flatnonzero(<mask>))")
     if len(applied) == 1 and counted:
         if counted == applied:
             rep.ok("R7-ctor", construct + "#recount-mask", "group metadata recounted from %s, the mask the data and labels were subset with" % sorted(applied)[0])
